@@ -106,6 +106,41 @@ def generate(rng, n, tier="quick"):
             case["id"] = "%s-sym%03d" % (ID, d)
             d += 1
             out.append((case, {"mode": "symchar", "oracle": ["must", "[V|V|V|W|V|V|W|12|T]"]}))
+    # directed: a [literal] segment designates the key spelled between the brackets, blanks at its ends included – next to a field
+    # whose name is the same without them, in every position a path can stand
+    for key in [" k", "k ", " k ", "\tk", " ", "  ", " this ", " this", "k\n"]:
+        bare = key.strip()
+        data = {key: "P", "o": {key: "Q"}, "xs": {key: [1, 2]}}
+        if bare and bare != "this":
+            data[bare] = "U"
+            data["o"][bare] = "U2"
+            data["xs"][bare] = [9]
+        import json as _json
+        src = ("[{{[%s]}}|{{this.[%s]}}|{{./[%s]}}|{{o.[%s]}}|{{#with o}}{{../[%s]}}{{/with}}|{{@root.[%s]}}|{{lookup o %s}}|"
+               "{{#each xs.[%s]}}{{this}}{{/each}}|{{#if [%s]}}T{{/if}}|{{#with o as |x|}}{{x.[%s]}}{{/with}}]") % (
+                   (key,) * 6 + (_json.dumps(key),) + (key,) * 3)
+        if not bare:
+            # in parameter position a blank-only [ ] is the empty array LITERAL (the grammar tries literals first)
+            src = src.replace("{{#if [%s]}}" % key, "{{#if this.[%s]}}" % key)
+        case = session({"escape": "none"}, [("main", src)], {"api": "render", "name": "main"}, data)
+        case["id"] = "%s-pad%03d" % (ID, d)
+        d += 1
+        out.append((case, {"mode": "padkey", "oracle": ["must", "[P|P|P|Q|P|P|Q|12|T|Q]"]}))
+    # directed: a block parameter designates the VALUE it was bound to, with its type: the index parameter of an array iteration is a
+    # number (usable as a lookup index, equal to a literal number), the key parameter of an object iteration a string
+    data = {"xs": ["a", "b"], "ys": ["Y0", "Y1"], "o": {"k": ["p"]}, "m": {"0": "S0", "1": "S1"}}
+    src = ("[{{#each xs as |v i|}}{{lookup ../ys i}}{{#if (eq i 0)}}z{{/if}}{{#if (eq i \"0\")}}STR{{/if}}{{/each}}|"
+           "{{#each o as |v k|}}{{lookup ../o k}}{{#if (eq k \"k\")}}s{{/if}}{{/each}}|"
+           "{{#each xs as |v i|}}{{#with ../ys as |w|}}{{lookup w i}}{{/with}}{{/each}}|{{#each xs as |v i|}}{{lookup ../m i}}{{/each}}]")
+    case = session({"escape": "none"}, [("main", src)], {"api": "render", "name": "main"}, data)
+    case["id"] = "%s-bptype" % ID
+    out.append((case, {"mode": "bptype", "oracle": ["any", "lookup of an object by a number is left to the model"]}))
+    src2 = ("[{{#each xs as |v i|}}{{lookup ../ys i}}{{#if (eq i 0)}}z{{/if}}{{#if (eq i \"0\")}}STR{{/if}}{{/each}}|"
+            "{{#each o as |v k|}}{{lookup ../o k}}{{#if (eq k \"k\")}}s{{/if}}{{/each}}|"
+            "{{#each xs as |v i|}}{{#with ../ys as |w|}}{{lookup w i}}{{/with}}{{/each}}]")
+    case = session({"escape": "none"}, [("main", src2)], {"api": "render", "name": "main"}, data)
+    case["id"] = "%s-bptype2" % ID
+    out.append((case, {"mode": "bptype", "oracle": ["must", "[Y0zY1|[p]s|Y0Y1]"]}))
     return out
 
 
